@@ -302,6 +302,53 @@ def genai_events(ns, rng, tid0, tier):
     return events, tid
 
 
+def relink_events(ns, rng, tid0, tier):
+    """the links of the builders are inputs too: a service job moved to another service (which has no job yet and runs on another
+    server), a service moved to another server -- the live model must equal the model built that way from scratch"""
+    c = ns.classes
+    events, tid = [], tid0
+
+    def servers(kind):
+        if kind == "GenAIModel":
+            mk = lambda n, ram: c["GPUServer"].from_defaults(n, storage=c["Storage"].from_defaults("storage " + n),
+                                                             compute=sv(ns, 64, "gpu"), ram_per_gpu=sv(ns, ram, "GB/gpu"))
+            return mk("server A", 80), mk("server B", 40)
+        return (plain_server(ns, "server A"),
+                c["Server"].from_defaults("server B", storage=c["Storage"].from_defaults("storage B"), ram=sv(ns, 64, "GB")))
+
+    def build(kind, job_on, svc1_on):
+        """services 1 and 2 (2 on server B, without job unless job_on == 2); the job on service job_on; service 1 on svc1_on"""
+        a, b = servers(kind)
+        svc_cls, job_cls = {"VideoStreaming": ("VideoStreaming", "VideoStreamingJob"), "WebApplication": ("WebApplication", "WebApplicationJob"),
+                            "GenAIModel": ("GenAIModel", "GenAIJob")}[kind]
+        s1 = c[svc_cls].from_defaults("service 1", server=a if svc1_on == "A" else b)
+        s2 = c[svc_cls].from_defaults("service 2", server=b)
+        job = c[job_cls].from_defaults("service job", service=s1 if job_on == 1 else s2)
+        if kind != "GenAIModel":            # both servers stay in the system whatever is moved
+            keep = c["Job"].from_defaults("plain job A", server=a)
+            keep_b = c["Job"].from_defaults("plain job B", server=b)
+        else:                               # a GPU server only runs GPU jobs
+            keep = c[job_cls].from_defaults("genai job A", service=c[svc_cls].from_defaults("service 0", server=a))
+            keep_b = c[job_cls].from_defaults("genai job B", service=c[svc_cls].from_defaults("service 3", server=b))
+        return usage(ns, [job, keep, keep_b]), job, s1, s2, a, b
+    for kind in ("VideoStreaming", "WebApplication", "GenAIModel"):
+        for what in ("job.service", "service.server"):
+            tid += 1
+            try:
+                system, job, s1, s2, a, b = build(kind, 1, "A")
+                if what == "job.service":
+                    job.service = s2
+                    fresh = build(kind, 2, "A")[0]
+                else:
+                    s1.server = b
+                    fresh = build(kind, 1, "B")[0]
+                d = differing(footprints(ns, system), footprints(ns, fresh))
+            except Exception as ex:   # noqa
+                d = [[f"raised {type(ex).__name__}", str(ex)[:100]]]
+            events.append({"tid": tid, "seq": 0, "ev": "Refresh", "builder": kind, "input": what, "differs": d})
+    return events, tid
+
+
 def run(tier, out):
     wd = work_dir("c17")
     try:
@@ -310,7 +357,7 @@ def run(tier, out):
         rng = random.Random(seed_from_env() * 13 + 1)
         events, tid = [], 0
         counts = {}
-        for fn in (video_events, webapp_events, cloud_events, genai_events):
+        for fn in (video_events, webapp_events, cloud_events, genai_events, relink_events):
             evs, tid = fn(ns, rng, tid, tier)
             counts[fn.__name__] = len(evs)
             events += evs
